@@ -533,7 +533,8 @@ class Exec:
             d=args[0]; key=d.t.get_id()
             if not hasattr(self,'d2dmemo'): self.d2dmemo={}
             if key not in self.d2dmemo:
-                y=IV(ctx.fresh('y'),'i32',-5879611,5879611); mth=IV(ctx.fresh('m'),'u32',1,12); dd=IV(ctx.fresh('dd'),'u32',1,31)
+                I=z3.IntSort(); Dy=z3.Function('D2D_y',I,I); Dm=z3.Function('D2D_m',I,I); Dd=z3.Function('D2D_d',I,I)
+                y=IV(Dy(d.t),'i32',-5879611,5879611); mth=IV(Dm(d.t),'u32',1,12); dd=IV(Dd(d.t),'u32',1,31)
                 ctx.side+=[y.t>=y.lo,y.t<=y.hi,mth.t>=1,mth.t<=12,dd.t>=1,dd.t<=31]
                 cf=self.fns[[n for n in self.fns if n.split('::')[-1]=='contract_days_to_date'][0]]
                 self.in_d2d_contract=True; saved=ctx.cur_guard; np=len(ctx.panics)
@@ -553,13 +554,15 @@ class Exec:
                 extra=list(args[1:])
                 cf=self.fns[cands[0]]
                 rty=self.fns[name].ret
+                I=z3.IntSort(); key=[d.t,n_.t,off.t]+[e.t for e in extra]
+                def UF(nm): return z3.Function('C_%s_%s'%(meth,nm),*([I]*(len(key)+1)))(*key)
                 if 'DateTime' in rty:
-                    rd=IV(ctx.fresh('rd'),'i32',-2**31,2**31-1); rn=IV(ctx.fresh('rn'),'u64',0,86400*10**9-1)
+                    rd=IV(UF('d'),'i32',-2**31,2**31-1); rn=IV(UF('n'),'u64',0,86400*10**9-1)
                     ctx.side+=[rd.t>=rd.lo,rd.t<=rd.hi,rn.t>=0,rn.t<=rn.hi]
                     res=[rd,rn]; out=Agg([rd,rn,offe],selfv.kind)
                 else:
                     hi={'month':12,'day':31,'weekday':6,'hour':23,'minute':59}[meth]
-                    r=IV(ctx.fresh('r'),'u8' if meth=='weekday' else 'u32',0,hi); ctx.side+=[r.t>=0,r.t<=hi]
+                    r=IV(UF('r'),'u8' if meth=='weekday' else 'u32',0,hi); ctx.side+=[r.t>=0,r.t<=hi]
                     res=[r]; out=r
                 self.in_contract=True; saved=ctx.cur_guard; np=len(ctx.panics)
                 self.in_contract_allow_d2d=True
